@@ -111,7 +111,7 @@ def pOrder : P (Option OrderSpec)
       | some (k, ts1) => (pNat ts1).map fun (d, r) => ((k, d != 0), r)
       | none => none) ts).map fun (o, r) => (some o, r)
 
-def pTable : P (List Row) := fun ts =>
+def pTable : P (List Cells) := fun ts =>
   match pCounted pStr ts with
   | some (cols, ts1) =>
     match pNat ts1 with
@@ -161,7 +161,7 @@ def showFail (f : Fail) : String := "err " ++ f.name
 
 def showWords (ws : List String) : String := " ".intercalate ("ok" :: ws)
 
-def rowId (r : Row) : Option String :=
+def rowId (r : Cells) : Option String :=
   match r with
   | (_, .int i) :: _ => some (toString i)
   | _ => none
@@ -192,7 +192,7 @@ def handle (line : String) : String :=
           match prepare sc.pct sc.st sc.call with
           | .error e => showFail e
           | .ok p =>
-            match selectRows p.conj p.params rows with
+            match selectRows (wheresFields p.conj) p.conj p.params rows with
             | none => "err OperationalError"
             | some sel =>
               match (match sc.order with | some o => sortRows o sel | none => some sel) with
